@@ -109,6 +109,17 @@ def file_and_convert(ctx, b, label, rng):
             dd = same_data(b, r[1])
             if dd:
                 ctx.violation('readers.read_formatted_basis_file', 'file:' + dd[0], 'file round trip in %s changes the basis: %s' % (fmt, dd[1]), replay)
+            if len(b['elements']) >= 2:
+                # the same path written again with other content (one element fewer): reading gives what is in the file now
+                b2 = copy.deepcopy(b)
+                del b2['elements'][next(iter(b2['elements']))]
+                if fmt != 'turbomole' or any('electron_shells' in el for el in b2['elements'].values()):
+                    w2 = impl.call(writers.write_formatted_basis_file, copy.deepcopy(b2), path)
+                    r2 = impl.call(readers.read_formatted_basis_file, path)
+                    ctx.case((label, fmt, 'file-rewritten'), True, 'file-rewritten:' + fmt)
+                    if w2[0] == 'ok' and (r2[0] != 'ok' or same_data(b2, r2[1])):
+                        ctx.violation('readers.read_formatted_basis_file', 'file-rewritten:' + fmt,
+                                      'a %s file rewritten with other content reads back as something else than its content (%s)' % (fmt, r2[0] if r2[0] != 'ok' else same_data(b2, r2[1])[1]), replay)
             # conversion A -> B carries the same data as exporting to B directly
             text = writers.write_formatted_basis_str(copy.deepcopy(b), fmt)
             for tgt in rng.sample(['gaussian94', 'nwchem', 'turbomole', 'psi4', 'gamess_us', 'molpro', 'dalton', 'cfour'], 3):
